@@ -881,6 +881,11 @@ func (u *Universe) LoaderFor(c *Ctx, plan *FaultPlan, log *LoaderLog) jsonschema
 					sch.Defs = map[string]*jsonschema.Schema{}
 				}
 				sch.Defs["zz-back-to-root"] = &jsonschema.Schema{Not: &sch}
+			case "reentrant":
+				// a Loader that vets what it hands out: it resolves the document itself (with a plain
+				// loader of its own) before returning it - Resolve re-entered from inside Resolve
+				log.Fired = append(log.Fired, "reentrant-loader")
+				sch.Resolve(&jsonschema.ResolveOptions{BaseURI: s, Loader: u.LoaderFor(c, nil, &LoaderLog{})})
 			case "dag":
 				// ... or a heavily shared one: 40 levels, both children of every level the same pointer
 				log.Fired = append(log.Fired, "shared-dag")
